@@ -4,7 +4,7 @@ ENTRY = dict(
         title="Primitive wire types pack, unpack and size consistently for every value",
         design_ref="DESIGN.md section 6 / C19",
         prop_modules=["C19", "C19Sweep", "TieTypes", "TieTypesB", "TieTypesC", "TieTypesD"],
-        technique="Lean 4 theorems over all values / all trailing bytes (codec model of data_types.py) + translator table of the struct formats + correspondence with to_bytes/from_bytes/value/size and with the regulator-data consumer on a real EcoMAX device",
+        technique="Lean 4 theorems over all values / all trailing bytes (codec model of data_types.py) + translator table of the struct formats + correspondence with to_bytes/from_bytes/value/size and with the regulator-data consumer on a real EcoMAX device + code tie: every class of data_types.py translated from its source text on each run (tools/py2lean_types.py) with kernel-checked `translated = codec model` theorems (Props/TieTypes, TieTypesB, TieTypesC, TieTypesD)",
         level_text=(
             "Proof: `C19.int_lawful`, `float_lawful`, `double_lawful`, `ipv4_lawful`, `ipv6_lawful`, `string_lawful`, `var_lawful` show for "
             "EVERY representable value and EVERY trailing byte string that the packed form exists, the reported size equals its length and "
